@@ -38,3 +38,18 @@ TEXTS["C02"] = {
             "(gasLimit > gasRequested - accumulatedGas) is modelled with truncated subtraction; the invariant accGas <= gasRequested is proved.",
     "technique": "Coq proof (loop invariant, envelope model) + correspondence check via proved-sound boolean twins on implementation results + Go monitors (math/big)",
 }
+
+TEXTS["C18"] = {
+    "text": "CLAIMED PARTIAL. Machine-checked (Coq) on an operational model of timeCacheCore/TimeCache/peerTimeCache/timeCacher in which each operation takes the "
+            "clock reading as input and the cacher's background goroutine is an explicit sweep event: for every history and all spans, a key whose latest add/upsert "
+            "was at t with effective span d is reported by every query at now <= t+d whatever sweeps ran (C18_retained*), a sweep at now > t+d removes it "
+            "(C18_dropped*, C18_cacher_self_sweep_partial), Upsert makes the span max(old,new), restarts the countdown and never moves the expiry earlier under a "
+            "non-decreasing clock (C18_upsert_max/_monotone), Add/AddWithSpan/Put replace span and countdown (C18_add_replaces), HasOrAdd does not refresh; same for the "
+            "peer and cacher front-ends. VALIDATED, NOT PROVED: (i) model = code, by exact differential runs in virtual time (verif hook shifts stored timestamps; "
+            "exhaustive small scope + random) with the property text also evaluated directly on the implementation by monitors; (ii) the real clock and the self-sweeping "
+            "goroutine, by real-time runs with spans 1-3 s and one-sided monotonic-clock brackets (present asserted only while the upper bracket is inside the span, gone only "
+            "for a sweep whose lower bracket is beyond it; the cacher, never swept by the harness, must drop an expired entry within 3 sweep intervals).",
+    "note": "Trusted: Coq kernel, hand-written model (tied by differential runs), extraction, OCaml driver, Go harness, the verif-tagged accessor file timecache/export_verif.go "
+            "(shift/keys/entry/sweep accessors), Go's monotonic clock. No axioms.",
+    "technique": "Coq proof over an executable model with explicit clock + exact virtual-time differential check + property monitors + bracketed real-time validation",
+}
